@@ -175,7 +175,8 @@ func (m *c08cModel) keys(v interface{}, path string, visiting []string) []string
 	return []string{path}
 }
 
-func c08Containers() *core.Space {
+// c08ContainerCases enumerates the configurations of the container-reference space.
+func c08ContainerCases() (int, func(i int) M) {
 	menu := func(self, other string) []interface{} {
 		return []interface{}{nil, "${l}", "${o}", "${l.0}", "${o.k}", L{"${l}", "${l}"}, M{"n": "${o}", "m": "${o}"}, "${" + other + "}", L{"${o.k}", "${o.k}"}, M{"n": "${l}"},
 			"${" + self + ".x}", "${" + other + ".k}", "${" + other + ".0}"}
@@ -194,9 +195,14 @@ func c08Containers() *core.Space {
 		}
 		return in
 	}
+	return product(radices...), build
+}
+
+func c08Containers() *core.Space {
+	size, build := c08ContainerCases()
 	return &core.Space{
 		Name:        "container-references-and-diamonds",
-		Size:        product(radices...),
+		Size:        size,
 		CaseTimeout: 20e9,
 		Text: func(i int) string {
 			return fmt.Sprintf("%v read into map, struct{A,B interface{}}, struct{A,B []interface{}}, struct{A []interface{}; B interface{}}, FlattenedKeys, CompareConfigs", tree.CanonGo(map[string]interface{}(build(i))))
